@@ -207,8 +207,79 @@ pub fn check_seq(ctx: &Ctx, c: &SeqCase) -> Result<(), Fail> {
     Ok(())
 }
 
+// ------------------------------------------------------------------- quoted syntax fragments
+
+const FRAG_TARGETS: &[&str] = &["syn::Type", "syn::TypePath", "syn::TypeArray", "syn::TypeReference", "syn::Visibility", "syn::WhereClause", "syn::Path", "syn::Ident", "syn::Expr", "syn::ExprPath", "Vec<WherePredicate>"];
+/// texts none of the targets reads: contents that lex but do not parse, and contents that do not even lex
+const FRAG_BAD: &[&str] = &["1 +", "a b", "type", "Vec<", ") (", "fn(u8", "[u8; 4]]", "(", "{ a", "a ] b", "#", "Vec<u8", "'", "a \\", "where", "pub(", "= =", "\u{7f}"];
+
+fn conv_frag(target: &str, m: &syn::Meta) -> Result<(), Error> {
+    match target {
+        "syn::Type" => syn::Type::from_meta(m).map(|_| ()),
+        "syn::TypePath" => syn::TypePath::from_meta(m).map(|_| ()),
+        "syn::TypeArray" => syn::TypeArray::from_meta(m).map(|_| ()),
+        "syn::TypeReference" => syn::TypeReference::from_meta(m).map(|_| ()),
+        "syn::Visibility" => syn::Visibility::from_meta(m).map(|_| ()),
+        "syn::WhereClause" => syn::WhereClause::from_meta(m).map(|_| ()),
+        "syn::Path" => syn::Path::from_meta(m).map(|_| ()),
+        "syn::Ident" => syn::Ident::from_meta(m).map(|_| ()),
+        "syn::Expr" => syn::Expr::from_meta(m).map(|_| ()),
+        "syn::ExprPath" => syn::ExprPath::from_meta(m).map(|_| ()),
+        "Vec<WherePredicate>" => Vec::<syn::WherePredicate>::from_meta(m).map(|_| ()),
+        _ => unreachable!(),
+    }
+}
+
+/// A quoted fragment the target does not read: the error points at the string the user wrote - a span of positive
+/// width inside the literal - whether the contents fail to parse or fail to lex.
+fn check_frag(ctx: &Ctx, d: &mut D) -> Result<(), Fail> {
+    fresh_spans();
+    let target = *d.pick(FRAG_TARGETS);
+    let text = *d.pick(FRAG_BAD);
+    let pad = " ".repeat(d.below(3));
+    let src = format!("{}v = {:?}", pad, text);
+    ctx.set_render(json!({"target": target, "src": src}));
+    let m = match syn::parse_str::<syn::Meta>(&src) {
+        Ok(m) => m,
+        Err(e) => fail!("c03s:harness-render", "`{}` does not parse as a meta item: {}", src, e),
+    };
+    use syn::spanned::Spanned;
+    let value = match &m {
+        syn::Meta::NameValue(nv) => range(nv.value.span()),
+        _ => unreachable!(),
+    };
+    ctx.class("form:quoted-fragment");
+    ctx.class(&format!("target:{}", target));
+    let got = match catch(|| conv_frag(target, &m)) {
+        Ok(r) => r,
+        Err(p) => fail!("c03s:panic", "{}::from_meta(`{}`) panicked: {}", target, src, p),
+    };
+    match got {
+        // (a text some target does read is no case: `type` is no identifier but `a b` ... every text of the pool is
+        // meant to be refused; an acceptance is reported so that the pool stays honest)
+        Ok(()) => {
+            ctx.class("quoted-fragment:accepted");
+            Ok(())
+        }
+        Err(e) => {
+            ctx.nontrivial(&(target, text));
+            for leaf in e.clone().flatten().into_iter() {
+                let sp = match leaf.explicit_span() {
+                    Some(s) => range(s),
+                    None => fail!("c03s:unspanned:quoted-fragment", "{}::from_meta(`{}`): error `{}` carries no span", target, src, leaf),
+                };
+                ensure!(inside(sp, value) && sp.1 > sp.0, "c03s:span-outside-value:quoted-fragment", "{}::from_meta(`{}`): error `{}` spans {:?}, the string the user wrote is at {:?}", target, src, leaf, sp, value);
+            }
+            Ok(())
+        }
+    }
+}
+
 pub fn check_seq_bytes(ctx: &Ctx, bytes: &Vec<u8>) -> Result<(), Fail> {
     let mut d = D::new(bytes);
+    if d.ratio(1, 5) {
+        return check_frag(ctx, &mut d);
+    }
     let c = gen_seq(&mut d);
     ctx.set_render(json!(c));
     check_seq(ctx, &c)
@@ -463,7 +534,7 @@ pub fn run(args: &Args) -> bool {
     let mut ok = true;
     if want("seqs") {
         let ctx = Ctx::new("C03", "seqs", vmodel::ev::mix_seed(args.seed, "C03", "seqs", args.shard), args);
-        ctx.set_rule("built-in sequence targets (Vec<u8..usize>, Vec<syn::Lit*>, PathList) given an array, a quoted array or a list of 1-6 elements of which at least one is not acceptable to the target (wrong literal kind, identifier, unary minus, expression, out of range, name-value or list item): conversion fails and every error leaf carries an explicit span inside an offending element (inside the string literal for quoted arrays). Non-trivial: more than one element; distinct by case");
+        ctx.set_rule("built-in sequence targets (Vec<u8..usize>, Vec<syn::Lit*>, PathList) given an array, a quoted array or a list of 1-6 elements of which at least one is not acceptable to the target (wrong literal kind, identifier, unary minus, expression, out of range, name-value or list item): conversion fails and every error leaf carries an explicit span inside an offending element (inside the string literal for quoted arrays); one case in five is a quoted syntax fragment (11 syn targets x 18 texts that do not parse or do not even lex) whose error must have a span of positive width inside the string. Non-trivial: more than one element, or a refused fragment; distinct by case");
         if let Some((_, case)) = &replay {
             if let Ok(c) = serde_json::from_value::<SeqCase>(case.clone()) {
                 ok &= run_list(&ctx, vec![c], check_seq);
